@@ -31,7 +31,7 @@ RULE = ("junk lines: all %d strings of length <= 3 over the alphabet {. : \" ' -
         "with '~' and lines containing VERS/WRAP/DLM/NULL; sites: first/middle/last line position of every ~V, ~W, ~P and "
         "custom section (never ~C); counts 1..5 per file; bases: generated tagged files (v1.2 and v2.0) and readable corpus "
         "files; each (base, junk set) is read with and without ignore_header_errors. distinct = distinct (junk line, section "
-        "kind, position class, base kind); non-trivial = junk that is not blank/comment Added later: every parsable junk line inserted 2-3 times, '%%' in the alphabet, floods of 6..300 junk lines in one section."
+        "kind, position class, base kind); non-trivial = junk that is not blank/comment Added later: every parsable junk line inserted 2-3 times, '%%' in the alphabet, floods of 6..300 junk lines in one section. Hunter rounds: the same junk in files read by path (UTF-8 with non-ASCII genuine text, junk that looks like escape sequences or charset declarations, floods that push the first non-ASCII byte beyond the sampled bytes), stored as UTF-8, UTF-16 without BOM and cp1252. Round 8: junk whose mnemonic only begins like a steering mnemonic (NULLS, DLMT, VERSION) in bases that lack or double that steering line; the junk filter excludes only lines that NAME a steering mnemonic."
         % (sum(15 ** n for n in (1, 2, 3)), len(DOCUMENTED)))
 ASSUMPTIONS = [
     "a junk line that happens to parse becomes an additional item; genuine items must then still appear, unchanged and in order, as a subsequence",
@@ -43,7 +43,7 @@ REQUIRED = ["reads_with_flag", "reads_without_flag", "without_flag_header_errors
             "data_comparisons", "plans_with_repeated_junk_line", "plans_with_many_junk_lines_in_one_section", "reads_of_files_by_path", "section_V", "section_W", "section_P", "section_X"]
 SOFT_DEADLINE = {"quick": 90, "thorough": 1500}
 LEVEL_TEXT = ("Fault enumeration: the short junk-line space is enumerated completely at every section kind; longer lines are "
-              "sampled; each faulty file is compared with its junk-free base (conservation of genuine items and data). Hunter rounds: the same junk in files read by path (UTF-8 with non-ASCII genuine text, junk that looks like escape sequences or charset declarations, floods that push the first non-ASCII byte beyond the sampled bytes), stored as UTF-8, UTF-16 without BOM and cp1252.")
+              "sampled; each faulty file is compared with its junk-free base (conservation of genuine items and data).")
 LEVEL_NOTE = "Holds for the junk lines and sites enumerated; the junk-free read of the same file is the reference for 'genuine item'."
 TECHNIQUE = "runtime monitoring: junk-line fault enumeration with a conservation checker against the fault-free read and an exception-class monitor"
 
